@@ -21,8 +21,15 @@ import GojaModel.C19.QuoteMechThm
 import GojaModel.C19.AllowListWf
 import GojaModel.C19.ReviverMutThm
 import GojaModel.C19.MarshalThm
+import GojaModel.C19.SpaceMech
 
 namespace GojaModel.C19
+
+/-- mechanism level (SpaceMech.lean: builtin_json.go:231, the processing of the `space` argument): integers, doubles (NaN, ±Infinity,
+    any magnitude — in particular ≥ 2^63, where the code before bd5c535 converted to int64 before comparing), strings
+    (cut to 10 code units) and everything else give exactly the gap ECMA-262 §25.5.2 steps 5–8 specify. -/
+theorem space_argument_refines_spec (a : SpaceArg) : gapMech a = gapSpec a :=
+  gapMech_eq_gapSpec a
 
 /-- gap_clamped (Number): `space` = n gives exactly min(n,10) spaces. -/
 theorem gap_clamped_number (n : Nat) :
